@@ -751,141 +751,145 @@ u_stubs! { fn c05_u_set_config() {
 } }
 
 // ==== generated by tools/gen_e_be.py ====
-// @harness props=C03,C04,C09 tier=quick reach=off timeout=400 bound="request 1 (GET_FEATURES), header flags 0x9 (version 1, NEED_REPLY), declared size = body size; body bytes, 0..=2 attached descriptors, three 64-bit negotiation words and handler outcome symbolic; one request" stubs="vmm-sys-util raw_recvmsg/raw_sendmsg (ghost stream socket), libc::close + OwnedFd::drop (ghost descriptor table), handle_alloc_error (assume false)"
+// @harness props=C01,C03,C04,C09 tier=quick reach=off timeout=400 bound="request 1 (GET_FEATURES), header flags 0x9 (version 1, NEED_REPLY), declared size = body size; body bytes, 0..=2 attached descriptors, three 64-bit negotiation words and handler outcome symbolic; one request" stubs="vmm-sys-util raw_recvmsg/raw_sendmsg (ghost stream socket), libc::close + OwnedFd::drop (ghost descriptor table), handle_alloc_error (assume false)"
 e_be!(e_be_get_features_nr, 1, 0x9, 0, 0);
-// @harness props=C03,C04,C09 tier=thorough reach=off timeout=400 bound="request 1 (GET_FEATURES), header flags 0x1 (version 1), declared size = body size; body bytes, 0..=2 attached descriptors, three 64-bit negotiation words and handler outcome symbolic; one request" stubs="vmm-sys-util raw_recvmsg/raw_sendmsg (ghost stream socket), libc::close + OwnedFd::drop (ghost descriptor table), handle_alloc_error (assume false)"
+// @harness props=C01,C03,C04,C09 tier=thorough reach=off timeout=400 bound="request 1 (GET_FEATURES), header flags 0x1 (version 1), declared size = body size; body bytes, 0..=2 attached descriptors, three 64-bit negotiation words and handler outcome symbolic; one request" stubs="vmm-sys-util raw_recvmsg/raw_sendmsg (ghost stream socket), libc::close + OwnedFd::drop (ghost descriptor table), handle_alloc_error (assume false)"
 e_be!(e_be_get_features_plain, 1, 0x1, 0, 0);
-// @harness props=C02,C03,C04 tier=quick reach=off timeout=400 bound="request 2 (SET_FEATURES), header flags 0x9 (version 1, NEED_REPLY), declared size = body size; body bytes, 0..=2 attached descriptors, three 64-bit negotiation words and handler outcome symbolic; one request" stubs="vmm-sys-util raw_recvmsg/raw_sendmsg (ghost stream socket), libc::close + OwnedFd::drop (ghost descriptor table), handle_alloc_error (assume false)"
+// @harness props=C01,C02,C03,C04 tier=quick reach=off timeout=400 bound="request 2 (SET_FEATURES), header flags 0x9 (version 1, NEED_REPLY), declared size = body size; body bytes, 0..=2 attached descriptors, three 64-bit negotiation words and handler outcome symbolic; one request" stubs="vmm-sys-util raw_recvmsg/raw_sendmsg (ghost stream socket), libc::close + OwnedFd::drop (ghost descriptor table), handle_alloc_error (assume false)"
 e_be!(e_be_set_features_nr, 2, 0x9, 0, 0);
-// @harness props=C02,C03,C04 tier=quick reach=off timeout=400 bound="request 2 (SET_FEATURES), header flags 0x1 (version 1), declared size = body size; body bytes, 0..=2 attached descriptors, three 64-bit negotiation words and handler outcome symbolic; one request" stubs="vmm-sys-util raw_recvmsg/raw_sendmsg (ghost stream socket), libc::close + OwnedFd::drop (ghost descriptor table), handle_alloc_error (assume false)"
+// @harness props=C01,C02,C03,C04 tier=quick reach=off timeout=400 bound="request 2 (SET_FEATURES), header flags 0x1 (version 1), declared size = body size; body bytes, 0..=2 attached descriptors, three 64-bit negotiation words and handler outcome symbolic; one request" stubs="vmm-sys-util raw_recvmsg/raw_sendmsg (ghost stream socket), libc::close + OwnedFd::drop (ghost descriptor table), handle_alloc_error (assume false)"
 e_be!(e_be_set_features_plain, 2, 0x1, 0, 0);
-// @harness props=C03,C04 tier=quick reach=off timeout=400 bound="request 3 (SET_OWNER), header flags 0x9 (version 1, NEED_REPLY), declared size = body size; body bytes, 0..=2 attached descriptors, three 64-bit negotiation words and handler outcome symbolic; one request" stubs="vmm-sys-util raw_recvmsg/raw_sendmsg (ghost stream socket), libc::close + OwnedFd::drop (ghost descriptor table), handle_alloc_error (assume false)"
+// @harness props=C01,C03,C04 tier=quick thorough_for=C01 reach=off timeout=400 bound="request 3 (SET_OWNER), header flags 0x9 (version 1, NEED_REPLY), declared size = body size; body bytes, 0..=2 attached descriptors, three 64-bit negotiation words and handler outcome symbolic; one request" stubs="vmm-sys-util raw_recvmsg/raw_sendmsg (ghost stream socket), libc::close + OwnedFd::drop (ghost descriptor table), handle_alloc_error (assume false)"
 e_be!(e_be_set_owner_nr, 3, 0x9, 0, 0);
-// @harness props=C03,C04 tier=thorough reach=off timeout=400 bound="request 3 (SET_OWNER), header flags 0x1 (version 1), declared size = body size; body bytes, 0..=2 attached descriptors, three 64-bit negotiation words and handler outcome symbolic; one request" stubs="vmm-sys-util raw_recvmsg/raw_sendmsg (ghost stream socket), libc::close + OwnedFd::drop (ghost descriptor table), handle_alloc_error (assume false)"
+// @harness props=C01,C03,C04 tier=thorough reach=off timeout=400 bound="request 3 (SET_OWNER), header flags 0x1 (version 1), declared size = body size; body bytes, 0..=2 attached descriptors, three 64-bit negotiation words and handler outcome symbolic; one request" stubs="vmm-sys-util raw_recvmsg/raw_sendmsg (ghost stream socket), libc::close + OwnedFd::drop (ghost descriptor table), handle_alloc_error (assume false)"
 e_be!(e_be_set_owner_plain, 3, 0x1, 0, 0);
-// @harness props=C04 tier=quick thorough_for=C04 reach=off timeout=400 bound="request 4 (RESET_OWNER), header flags 0x9 (version 1, NEED_REPLY), declared size = body size; body bytes, 0..=2 attached descriptors, three 64-bit negotiation words and handler outcome symbolic; one request" stubs="vmm-sys-util raw_recvmsg/raw_sendmsg (ghost stream socket), libc::close + OwnedFd::drop (ghost descriptor table), handle_alloc_error (assume false)"
+// @harness props=C01,C04 tier=quick thorough_for=C04,C01 reach=off timeout=400 bound="request 4 (RESET_OWNER), header flags 0x9 (version 1, NEED_REPLY), declared size = body size; body bytes, 0..=2 attached descriptors, three 64-bit negotiation words and handler outcome symbolic; one request" stubs="vmm-sys-util raw_recvmsg/raw_sendmsg (ghost stream socket), libc::close + OwnedFd::drop (ghost descriptor table), handle_alloc_error (assume false)"
 e_be!(e_be_reset_owner_nr, 4, 0x9, 0, 0);
-// @harness props=C04 tier=thorough reach=off timeout=400 bound="request 4 (RESET_OWNER), header flags 0x1 (version 1), declared size = body size; body bytes, 0..=2 attached descriptors, three 64-bit negotiation words and handler outcome symbolic; one request" stubs="vmm-sys-util raw_recvmsg/raw_sendmsg (ghost stream socket), libc::close + OwnedFd::drop (ghost descriptor table), handle_alloc_error (assume false)"
+// @harness props=C01,C04 tier=thorough reach=off timeout=400 bound="request 4 (RESET_OWNER), header flags 0x1 (version 1), declared size = body size; body bytes, 0..=2 attached descriptors, three 64-bit negotiation words and handler outcome symbolic; one request" stubs="vmm-sys-util raw_recvmsg/raw_sendmsg (ghost stream socket), libc::close + OwnedFd::drop (ghost descriptor table), handle_alloc_error (assume false)"
 e_be!(e_be_reset_owner_plain, 4, 0x1, 0, 0);
-// @harness props=C02,C04,C05,C09 tier=quick reach=off timeout=400 bound="request 5 (SET_MEM_TABLE), header flags 0x9 (version 1, NEED_REPLY), declared size = body size; body bytes, 0..=2 attached descriptors, three 64-bit negotiation words and handler outcome symbolic; one request" stubs="vmm-sys-util raw_recvmsg/raw_sendmsg (ghost stream socket), libc::close + OwnedFd::drop (ghost descriptor table), handle_alloc_error (assume false)"
+// @harness props=C01,C02,C04,C05,C09 tier=quick thorough_for=C01 reach=off timeout=400 bound="request 5 (SET_MEM_TABLE), header flags 0x9 (version 1, NEED_REPLY), declared size = body size; body bytes, 0..=2 attached descriptors, three 64-bit negotiation words and handler outcome symbolic; one request" stubs="vmm-sys-util raw_recvmsg/raw_sendmsg (ghost stream socket), libc::close + OwnedFd::drop (ghost descriptor table), handle_alloc_error (assume false)"
 e_be!(e_be_set_mem_table_v1_nr, 5, 0x9, 0, 1);
-// @harness props=C02,C04,C05,C09 tier=thorough reach=off timeout=400 bound="request 5 (SET_MEM_TABLE), header flags 0x1 (version 1), declared size = body size; body bytes, 0..=2 attached descriptors, three 64-bit negotiation words and handler outcome symbolic; one request" stubs="vmm-sys-util raw_recvmsg/raw_sendmsg (ghost stream socket), libc::close + OwnedFd::drop (ghost descriptor table), handle_alloc_error (assume false)"
+// @harness props=C01,C02,C04,C05,C09 tier=thorough reach=off timeout=400 bound="request 5 (SET_MEM_TABLE), header flags 0x1 (version 1), declared size = body size; body bytes, 0..=2 attached descriptors, three 64-bit negotiation words and handler outcome symbolic; one request" stubs="vmm-sys-util raw_recvmsg/raw_sendmsg (ghost stream socket), libc::close + OwnedFd::drop (ghost descriptor table), handle_alloc_error (assume false)"
 e_be!(e_be_set_mem_table_v1_plain, 5, 0x1, 0, 1);
-// @harness props=C02,C04,C05,C09 tier=thorough reach=off timeout=400 bound="request 5 (SET_MEM_TABLE), header flags 0x9 (version 1, NEED_REPLY), declared size = body size; body bytes, 0..=2 attached descriptors, three 64-bit negotiation words and handler outcome symbolic; one request" stubs="vmm-sys-util raw_recvmsg/raw_sendmsg (ghost stream socket), libc::close + OwnedFd::drop (ghost descriptor table), handle_alloc_error (assume false)"
+// @harness props=C01,C02,C04,C05,C09 tier=thorough thorough_for=C01 reach=off timeout=400 bound="request 5 (SET_MEM_TABLE), header flags 0x9 (version 1, NEED_REPLY), declared size = body size; body bytes, 0..=2 attached descriptors, three 64-bit negotiation words and handler outcome symbolic; one request" stubs="vmm-sys-util raw_recvmsg/raw_sendmsg (ghost stream socket), libc::close + OwnedFd::drop (ghost descriptor table), handle_alloc_error (assume false)"
 e_be!(e_be_set_mem_table_v2_nr, 5, 0x9, 0, 2);
-// @harness props=C02,C04,C05,C09 tier=thorough reach=off timeout=400 bound="request 5 (SET_MEM_TABLE), header flags 0x1 (version 1), declared size = body size; body bytes, 0..=2 attached descriptors, three 64-bit negotiation words and handler outcome symbolic; one request" stubs="vmm-sys-util raw_recvmsg/raw_sendmsg (ghost stream socket), libc::close + OwnedFd::drop (ghost descriptor table), handle_alloc_error (assume false)"
+// @harness props=C01,C02,C04,C05,C09 tier=thorough reach=off timeout=400 bound="request 5 (SET_MEM_TABLE), header flags 0x1 (version 1), declared size = body size; body bytes, 0..=2 attached descriptors, three 64-bit negotiation words and handler outcome symbolic; one request" stubs="vmm-sys-util raw_recvmsg/raw_sendmsg (ghost stream socket), libc::close + OwnedFd::drop (ghost descriptor table), handle_alloc_error (assume false)"
 e_be!(e_be_set_mem_table_v2_plain, 5, 0x1, 0, 2);
-// @harness props=C02,C03,C04,C05,C07,C09 tier=quick reach=off timeout=400 bound="request 6 (SET_LOG_BASE), header flags 0x9 (version 1, NEED_REPLY), declared size = body size; body bytes, 0..=2 attached descriptors, three 64-bit negotiation words and handler outcome symbolic; one request" stubs="vmm-sys-util raw_recvmsg/raw_sendmsg (ghost stream socket), libc::close + OwnedFd::drop (ghost descriptor table), handle_alloc_error (assume false)"
+// @harness props=C01,C02,C03,C04,C05,C07,C09 tier=quick reach=off timeout=400 bound="request 6 (SET_LOG_BASE), header flags 0x9 (version 1, NEED_REPLY), declared size = body size; body bytes, 0..=2 attached descriptors, three 64-bit negotiation words and handler outcome symbolic; one request" stubs="vmm-sys-util raw_recvmsg/raw_sendmsg (ghost stream socket), libc::close + OwnedFd::drop (ghost descriptor table), handle_alloc_error (assume false)"
 e_be!(e_be_set_log_base_nr, 6, 0x9, 0, 0);
-// @harness props=C02,C03,C04,C05,C07,C09 tier=thorough reach=off timeout=400 bound="request 6 (SET_LOG_BASE), header flags 0x1 (version 1), declared size = body size; body bytes, 0..=2 attached descriptors, three 64-bit negotiation words and handler outcome symbolic; one request" stubs="vmm-sys-util raw_recvmsg/raw_sendmsg (ghost stream socket), libc::close + OwnedFd::drop (ghost descriptor table), handle_alloc_error (assume false)"
+// @harness props=C01,C02,C03,C04,C05,C07,C09 tier=thorough reach=off timeout=400 bound="request 6 (SET_LOG_BASE), header flags 0x1 (version 1), declared size = body size; body bytes, 0..=2 attached descriptors, three 64-bit negotiation words and handler outcome symbolic; one request" stubs="vmm-sys-util raw_recvmsg/raw_sendmsg (ghost stream socket), libc::close + OwnedFd::drop (ghost descriptor table), handle_alloc_error (assume false)"
 e_be!(e_be_set_log_base_plain, 6, 0x1, 0, 0);
-// @harness props=C02,C03,C04,C09 tier=quick reach=off timeout=400 bound="request 8 (SET_VRING_NUM), header flags 0x9 (version 1, NEED_REPLY), declared size = body size; body bytes, 0..=2 attached descriptors, three 64-bit negotiation words and handler outcome symbolic; one request" stubs="vmm-sys-util raw_recvmsg/raw_sendmsg (ghost stream socket), libc::close + OwnedFd::drop (ghost descriptor table), handle_alloc_error (assume false)"
+// @harness props=C01,C02,C03,C04,C09 tier=quick thorough_for=C01 reach=off timeout=400 bound="request 8 (SET_VRING_NUM), header flags 0x9 (version 1, NEED_REPLY), declared size = body size; body bytes, 0..=2 attached descriptors, three 64-bit negotiation words and handler outcome symbolic; one request" stubs="vmm-sys-util raw_recvmsg/raw_sendmsg (ghost stream socket), libc::close + OwnedFd::drop (ghost descriptor table), handle_alloc_error (assume false)"
 e_be!(e_be_set_vring_num_nr, 8, 0x9, 0, 0);
-// @harness props=C02,C03,C04,C09 tier=thorough reach=off timeout=400 bound="request 8 (SET_VRING_NUM), header flags 0x1 (version 1), declared size = body size; body bytes, 0..=2 attached descriptors, three 64-bit negotiation words and handler outcome symbolic; one request" stubs="vmm-sys-util raw_recvmsg/raw_sendmsg (ghost stream socket), libc::close + OwnedFd::drop (ghost descriptor table), handle_alloc_error (assume false)"
+// @harness props=C01,C02,C03,C04,C09 tier=thorough reach=off timeout=400 bound="request 8 (SET_VRING_NUM), header flags 0x1 (version 1), declared size = body size; body bytes, 0..=2 attached descriptors, three 64-bit negotiation words and handler outcome symbolic; one request" stubs="vmm-sys-util raw_recvmsg/raw_sendmsg (ghost stream socket), libc::close + OwnedFd::drop (ghost descriptor table), handle_alloc_error (assume false)"
 e_be!(e_be_set_vring_num_plain, 8, 0x1, 0, 0);
-// @harness props=C02,C04,C05 tier=quick thorough_for=C04 reach=off timeout=400 bound="request 9 (SET_VRING_ADDR), header flags 0x9 (version 1, NEED_REPLY), declared size = body size; body bytes, 0..=2 attached descriptors, three 64-bit negotiation words and handler outcome symbolic; one request" stubs="vmm-sys-util raw_recvmsg/raw_sendmsg (ghost stream socket), libc::close + OwnedFd::drop (ghost descriptor table), handle_alloc_error (assume false)"
+// @harness props=C01,C02,C04,C05 tier=quick thorough_for=C04,C01 reach=off timeout=400 bound="request 9 (SET_VRING_ADDR), header flags 0x9 (version 1, NEED_REPLY), declared size = body size; body bytes, 0..=2 attached descriptors, three 64-bit negotiation words and handler outcome symbolic; one request" stubs="vmm-sys-util raw_recvmsg/raw_sendmsg (ghost stream socket), libc::close + OwnedFd::drop (ghost descriptor table), handle_alloc_error (assume false)"
 e_be!(e_be_set_vring_addr_nr, 9, 0x9, 0, 0);
-// @harness props=C02,C04,C05 tier=thorough reach=off timeout=400 bound="request 9 (SET_VRING_ADDR), header flags 0x1 (version 1), declared size = body size; body bytes, 0..=2 attached descriptors, three 64-bit negotiation words and handler outcome symbolic; one request" stubs="vmm-sys-util raw_recvmsg/raw_sendmsg (ghost stream socket), libc::close + OwnedFd::drop (ghost descriptor table), handle_alloc_error (assume false)"
+// @harness props=C01,C02,C04,C05 tier=thorough reach=off timeout=400 bound="request 9 (SET_VRING_ADDR), header flags 0x1 (version 1), declared size = body size; body bytes, 0..=2 attached descriptors, three 64-bit negotiation words and handler outcome symbolic; one request" stubs="vmm-sys-util raw_recvmsg/raw_sendmsg (ghost stream socket), libc::close + OwnedFd::drop (ghost descriptor table), handle_alloc_error (assume false)"
 e_be!(e_be_set_vring_addr_plain, 9, 0x1, 0, 0);
-// @harness props=C02,C04 tier=quick thorough_for=C04 reach=off timeout=400 bound="request 10 (SET_VRING_BASE), header flags 0x9 (version 1, NEED_REPLY), declared size = body size; body bytes, 0..=2 attached descriptors, three 64-bit negotiation words and handler outcome symbolic; one request" stubs="vmm-sys-util raw_recvmsg/raw_sendmsg (ghost stream socket), libc::close + OwnedFd::drop (ghost descriptor table), handle_alloc_error (assume false)"
+// @harness props=C01,C02,C04 tier=quick thorough_for=C04,C01 reach=off timeout=400 bound="request 10 (SET_VRING_BASE), header flags 0x9 (version 1, NEED_REPLY), declared size = body size; body bytes, 0..=2 attached descriptors, three 64-bit negotiation words and handler outcome symbolic; one request" stubs="vmm-sys-util raw_recvmsg/raw_sendmsg (ghost stream socket), libc::close + OwnedFd::drop (ghost descriptor table), handle_alloc_error (assume false)"
 e_be!(e_be_set_vring_base_nr, 10, 0x9, 0, 0);
-// @harness props=C02,C04 tier=thorough reach=off timeout=400 bound="request 10 (SET_VRING_BASE), header flags 0x1 (version 1), declared size = body size; body bytes, 0..=2 attached descriptors, three 64-bit negotiation words and handler outcome symbolic; one request" stubs="vmm-sys-util raw_recvmsg/raw_sendmsg (ghost stream socket), libc::close + OwnedFd::drop (ghost descriptor table), handle_alloc_error (assume false)"
+// @harness props=C01,C02,C04 tier=thorough reach=off timeout=400 bound="request 10 (SET_VRING_BASE), header flags 0x1 (version 1), declared size = body size; body bytes, 0..=2 attached descriptors, three 64-bit negotiation words and handler outcome symbolic; one request" stubs="vmm-sys-util raw_recvmsg/raw_sendmsg (ghost stream socket), libc::close + OwnedFd::drop (ghost descriptor table), handle_alloc_error (assume false)"
 e_be!(e_be_set_vring_base_plain, 10, 0x1, 0, 0);
-// @harness props=C02,C03,C04 tier=quick reach=off timeout=400 bound="request 11 (GET_VRING_BASE), header flags 0x9 (version 1, NEED_REPLY), declared size = body size; body bytes, 0..=2 attached descriptors, three 64-bit negotiation words and handler outcome symbolic; one request" stubs="vmm-sys-util raw_recvmsg/raw_sendmsg (ghost stream socket), libc::close + OwnedFd::drop (ghost descriptor table), handle_alloc_error (assume false)"
+// @harness props=C01,C02,C03,C04 tier=quick reach=off timeout=400 bound="request 11 (GET_VRING_BASE), header flags 0x9 (version 1, NEED_REPLY), declared size = body size; body bytes, 0..=2 attached descriptors, three 64-bit negotiation words and handler outcome symbolic; one request" stubs="vmm-sys-util raw_recvmsg/raw_sendmsg (ghost stream socket), libc::close + OwnedFd::drop (ghost descriptor table), handle_alloc_error (assume false)"
 e_be!(e_be_get_vring_base_nr, 11, 0x9, 0, 0);
-// @harness props=C02,C03,C04 tier=thorough reach=off timeout=400 bound="request 11 (GET_VRING_BASE), header flags 0x1 (version 1), declared size = body size; body bytes, 0..=2 attached descriptors, three 64-bit negotiation words and handler outcome symbolic; one request" stubs="vmm-sys-util raw_recvmsg/raw_sendmsg (ghost stream socket), libc::close + OwnedFd::drop (ghost descriptor table), handle_alloc_error (assume false)"
+// @harness props=C01,C02,C03,C04 tier=thorough reach=off timeout=400 bound="request 11 (GET_VRING_BASE), header flags 0x1 (version 1), declared size = body size; body bytes, 0..=2 attached descriptors, three 64-bit negotiation words and handler outcome symbolic; one request" stubs="vmm-sys-util raw_recvmsg/raw_sendmsg (ghost stream socket), libc::close + OwnedFd::drop (ghost descriptor table), handle_alloc_error (assume false)"
 e_be!(e_be_get_vring_base_plain, 11, 0x1, 0, 0);
-// @harness props=C02,C04,C05,C09 tier=quick reach=off timeout=400 bound="request 12 (SET_VRING_KICK), header flags 0x9 (version 1, NEED_REPLY), declared size = body size; body bytes, 0..=2 attached descriptors, three 64-bit negotiation words and handler outcome symbolic; one request" stubs="vmm-sys-util raw_recvmsg/raw_sendmsg (ghost stream socket), libc::close + OwnedFd::drop (ghost descriptor table), handle_alloc_error (assume false)"
+// @harness props=C01,C02,C04,C05,C09 tier=quick reach=off timeout=400 bound="request 12 (SET_VRING_KICK), header flags 0x9 (version 1, NEED_REPLY), declared size = body size; body bytes, 0..=2 attached descriptors, three 64-bit negotiation words and handler outcome symbolic; one request" stubs="vmm-sys-util raw_recvmsg/raw_sendmsg (ghost stream socket), libc::close + OwnedFd::drop (ghost descriptor table), handle_alloc_error (assume false)"
 e_be!(e_be_set_vring_kick_nr, 12, 0x9, 0, 0);
-// @harness props=C02,C04,C05,C09 tier=quick reach=off timeout=400 bound="request 12 (SET_VRING_KICK), header flags 0x1 (version 1), declared size = body size; body bytes, 0..=2 attached descriptors, three 64-bit negotiation words and handler outcome symbolic; one request" stubs="vmm-sys-util raw_recvmsg/raw_sendmsg (ghost stream socket), libc::close + OwnedFd::drop (ghost descriptor table), handle_alloc_error (assume false)"
+// @harness props=C01,C02,C04,C05,C09 tier=quick reach=off timeout=400 bound="request 12 (SET_VRING_KICK), header flags 0x1 (version 1), declared size = body size; body bytes, 0..=2 attached descriptors, three 64-bit negotiation words and handler outcome symbolic; one request" stubs="vmm-sys-util raw_recvmsg/raw_sendmsg (ghost stream socket), libc::close + OwnedFd::drop (ghost descriptor table), handle_alloc_error (assume false)"
 e_be!(e_be_set_vring_kick_plain, 12, 0x1, 0, 0);
-// @harness props=C02,C04,C05,C09 tier=quick thorough_for=C04 reach=off timeout=400 bound="request 13 (SET_VRING_CALL), header flags 0x9 (version 1, NEED_REPLY), declared size = body size; body bytes, 0..=2 attached descriptors, three 64-bit negotiation words and handler outcome symbolic; one request" stubs="vmm-sys-util raw_recvmsg/raw_sendmsg (ghost stream socket), libc::close + OwnedFd::drop (ghost descriptor table), handle_alloc_error (assume false)"
+// @harness props=C01,C02,C04,C05,C09 tier=quick thorough_for=C04,C01 reach=off timeout=400 bound="request 13 (SET_VRING_CALL), header flags 0x9 (version 1, NEED_REPLY), declared size = body size; body bytes, 0..=2 attached descriptors, three 64-bit negotiation words and handler outcome symbolic; one request" stubs="vmm-sys-util raw_recvmsg/raw_sendmsg (ghost stream socket), libc::close + OwnedFd::drop (ghost descriptor table), handle_alloc_error (assume false)"
 e_be!(e_be_set_vring_call_nr, 13, 0x9, 0, 0);
-// @harness props=C02,C04,C05,C09 tier=thorough reach=off timeout=400 bound="request 13 (SET_VRING_CALL), header flags 0x1 (version 1), declared size = body size; body bytes, 0..=2 attached descriptors, three 64-bit negotiation words and handler outcome symbolic; one request" stubs="vmm-sys-util raw_recvmsg/raw_sendmsg (ghost stream socket), libc::close + OwnedFd::drop (ghost descriptor table), handle_alloc_error (assume false)"
+// @harness props=C01,C02,C04,C05,C09 tier=thorough reach=off timeout=400 bound="request 13 (SET_VRING_CALL), header flags 0x1 (version 1), declared size = body size; body bytes, 0..=2 attached descriptors, three 64-bit negotiation words and handler outcome symbolic; one request" stubs="vmm-sys-util raw_recvmsg/raw_sendmsg (ghost stream socket), libc::close + OwnedFd::drop (ghost descriptor table), handle_alloc_error (assume false)"
 e_be!(e_be_set_vring_call_plain, 13, 0x1, 0, 0);
-// @harness props=C02,C04,C05,C09 tier=quick thorough_for=C04 reach=off timeout=400 bound="request 14 (SET_VRING_ERR), header flags 0x9 (version 1, NEED_REPLY), declared size = body size; body bytes, 0..=2 attached descriptors, three 64-bit negotiation words and handler outcome symbolic; one request" stubs="vmm-sys-util raw_recvmsg/raw_sendmsg (ghost stream socket), libc::close + OwnedFd::drop (ghost descriptor table), handle_alloc_error (assume false)"
+// @harness props=C01,C02,C04,C05,C09 tier=quick thorough_for=C04,C01 reach=off timeout=400 bound="request 14 (SET_VRING_ERR), header flags 0x9 (version 1, NEED_REPLY), declared size = body size; body bytes, 0..=2 attached descriptors, three 64-bit negotiation words and handler outcome symbolic; one request" stubs="vmm-sys-util raw_recvmsg/raw_sendmsg (ghost stream socket), libc::close + OwnedFd::drop (ghost descriptor table), handle_alloc_error (assume false)"
 e_be!(e_be_set_vring_err_nr, 14, 0x9, 0, 0);
-// @harness props=C02,C04,C05,C09 tier=thorough reach=off timeout=400 bound="request 14 (SET_VRING_ERR), header flags 0x1 (version 1), declared size = body size; body bytes, 0..=2 attached descriptors, three 64-bit negotiation words and handler outcome symbolic; one request" stubs="vmm-sys-util raw_recvmsg/raw_sendmsg (ghost stream socket), libc::close + OwnedFd::drop (ghost descriptor table), handle_alloc_error (assume false)"
+// @harness props=C01,C02,C04,C05,C09 tier=thorough reach=off timeout=400 bound="request 14 (SET_VRING_ERR), header flags 0x1 (version 1), declared size = body size; body bytes, 0..=2 attached descriptors, three 64-bit negotiation words and handler outcome symbolic; one request" stubs="vmm-sys-util raw_recvmsg/raw_sendmsg (ghost stream socket), libc::close + OwnedFd::drop (ghost descriptor table), handle_alloc_error (assume false)"
 e_be!(e_be_set_vring_err_plain, 14, 0x1, 0, 0);
-// @harness props=C03,C04,C07 tier=quick reach=off timeout=400 bound="request 15 (GET_PROTOCOL_FEATURES), header flags 0x9 (version 1, NEED_REPLY), declared size = body size; body bytes, 0..=2 attached descriptors, three 64-bit negotiation words and handler outcome symbolic; one request" stubs="vmm-sys-util raw_recvmsg/raw_sendmsg (ghost stream socket), libc::close + OwnedFd::drop (ghost descriptor table), handle_alloc_error (assume false)"
+// @harness props=C01,C03,C04,C07 tier=quick reach=off timeout=400 bound="request 15 (GET_PROTOCOL_FEATURES), header flags 0x9 (version 1, NEED_REPLY), declared size = body size; body bytes, 0..=2 attached descriptors, three 64-bit negotiation words and handler outcome symbolic; one request" stubs="vmm-sys-util raw_recvmsg/raw_sendmsg (ghost stream socket), libc::close + OwnedFd::drop (ghost descriptor table), handle_alloc_error (assume false)"
 e_be!(e_be_get_protocol_features_nr, 15, 0x9, 0, 0);
-// @harness props=C03,C04,C07 tier=thorough reach=off timeout=400 bound="request 15 (GET_PROTOCOL_FEATURES), header flags 0x1 (version 1), declared size = body size; body bytes, 0..=2 attached descriptors, three 64-bit negotiation words and handler outcome symbolic; one request" stubs="vmm-sys-util raw_recvmsg/raw_sendmsg (ghost stream socket), libc::close + OwnedFd::drop (ghost descriptor table), handle_alloc_error (assume false)"
+// @harness props=C01,C03,C04,C07 tier=thorough reach=off timeout=400 bound="request 15 (GET_PROTOCOL_FEATURES), header flags 0x1 (version 1), declared size = body size; body bytes, 0..=2 attached descriptors, three 64-bit negotiation words and handler outcome symbolic; one request" stubs="vmm-sys-util raw_recvmsg/raw_sendmsg (ghost stream socket), libc::close + OwnedFd::drop (ghost descriptor table), handle_alloc_error (assume false)"
 e_be!(e_be_get_protocol_features_plain, 15, 0x1, 0, 0);
-// @harness props=C02,C04 tier=quick reach=off timeout=400 bound="request 16 (SET_PROTOCOL_FEATURES), header flags 0x9 (version 1, NEED_REPLY), declared size = body size; body bytes, 0..=2 attached descriptors, three 64-bit negotiation words and handler outcome symbolic; one request" stubs="vmm-sys-util raw_recvmsg/raw_sendmsg (ghost stream socket), libc::close + OwnedFd::drop (ghost descriptor table), handle_alloc_error (assume false)"
+// @harness props=C01,C02,C04 tier=quick thorough_for=C01 reach=off timeout=400 bound="request 16 (SET_PROTOCOL_FEATURES), header flags 0x9 (version 1, NEED_REPLY), declared size = body size; body bytes, 0..=2 attached descriptors, three 64-bit negotiation words and handler outcome symbolic; one request" stubs="vmm-sys-util raw_recvmsg/raw_sendmsg (ghost stream socket), libc::close + OwnedFd::drop (ghost descriptor table), handle_alloc_error (assume false)"
 e_be!(e_be_set_protocol_features_nr, 16, 0x9, 0, 0);
-// @harness props=C02,C04 tier=quick reach=off timeout=400 bound="request 16 (SET_PROTOCOL_FEATURES), header flags 0x1 (version 1), declared size = body size; body bytes, 0..=2 attached descriptors, three 64-bit negotiation words and handler outcome symbolic; one request" stubs="vmm-sys-util raw_recvmsg/raw_sendmsg (ghost stream socket), libc::close + OwnedFd::drop (ghost descriptor table), handle_alloc_error (assume false)"
+// @harness props=C01,C02,C04 tier=quick reach=off timeout=400 bound="request 16 (SET_PROTOCOL_FEATURES), header flags 0x1 (version 1), declared size = body size; body bytes, 0..=2 attached descriptors, three 64-bit negotiation words and handler outcome symbolic; one request" stubs="vmm-sys-util raw_recvmsg/raw_sendmsg (ghost stream socket), libc::close + OwnedFd::drop (ghost descriptor table), handle_alloc_error (assume false)"
 e_be!(e_be_set_protocol_features_plain, 16, 0x1, 0, 0);
-// @harness props=C03,C04,C07 tier=quick thorough_for=C04 reach=off timeout=400 bound="request 17 (GET_QUEUE_NUM), header flags 0x9 (version 1, NEED_REPLY), declared size = body size; body bytes, 0..=2 attached descriptors, three 64-bit negotiation words and handler outcome symbolic; one request" stubs="vmm-sys-util raw_recvmsg/raw_sendmsg (ghost stream socket), libc::close + OwnedFd::drop (ghost descriptor table), handle_alloc_error (assume false)"
+// @harness props=C01,C03,C04,C07 tier=quick thorough_for=C04 reach=off timeout=400 bound="request 17 (GET_QUEUE_NUM), header flags 0x9 (version 1, NEED_REPLY), declared size = body size; body bytes, 0..=2 attached descriptors, three 64-bit negotiation words and handler outcome symbolic; one request" stubs="vmm-sys-util raw_recvmsg/raw_sendmsg (ghost stream socket), libc::close + OwnedFd::drop (ghost descriptor table), handle_alloc_error (assume false)"
 e_be!(e_be_get_queue_num_nr, 17, 0x9, 0, 0);
-// @harness props=C03,C04,C07 tier=thorough reach=off timeout=400 bound="request 17 (GET_QUEUE_NUM), header flags 0x1 (version 1), declared size = body size; body bytes, 0..=2 attached descriptors, three 64-bit negotiation words and handler outcome symbolic; one request" stubs="vmm-sys-util raw_recvmsg/raw_sendmsg (ghost stream socket), libc::close + OwnedFd::drop (ghost descriptor table), handle_alloc_error (assume false)"
+// @harness props=C01,C03,C04,C07 tier=thorough reach=off timeout=400 bound="request 17 (GET_QUEUE_NUM), header flags 0x1 (version 1), declared size = body size; body bytes, 0..=2 attached descriptors, three 64-bit negotiation words and handler outcome symbolic; one request" stubs="vmm-sys-util raw_recvmsg/raw_sendmsg (ghost stream socket), libc::close + OwnedFd::drop (ghost descriptor table), handle_alloc_error (assume false)"
 e_be!(e_be_get_queue_num_plain, 17, 0x1, 0, 0);
-// @harness props=C02,C04,C05,C07 tier=quick reach=off timeout=400 bound="request 18 (SET_VRING_ENABLE), header flags 0x9 (version 1, NEED_REPLY), declared size = body size; body bytes, 0..=2 attached descriptors, three 64-bit negotiation words and handler outcome symbolic; one request" stubs="vmm-sys-util raw_recvmsg/raw_sendmsg (ghost stream socket), libc::close + OwnedFd::drop (ghost descriptor table), handle_alloc_error (assume false)"
+// @harness props=C01,C02,C04,C05,C07 tier=quick thorough_for=C01 reach=off timeout=400 bound="request 18 (SET_VRING_ENABLE), header flags 0x9 (version 1, NEED_REPLY), declared size = body size; body bytes, 0..=2 attached descriptors, three 64-bit negotiation words and handler outcome symbolic; one request" stubs="vmm-sys-util raw_recvmsg/raw_sendmsg (ghost stream socket), libc::close + OwnedFd::drop (ghost descriptor table), handle_alloc_error (assume false)"
 e_be!(e_be_set_vring_enable_nr, 18, 0x9, 0, 0);
-// @harness props=C02,C04,C05,C07 tier=thorough reach=off timeout=400 bound="request 18 (SET_VRING_ENABLE), header flags 0x1 (version 1), declared size = body size; body bytes, 0..=2 attached descriptors, three 64-bit negotiation words and handler outcome symbolic; one request" stubs="vmm-sys-util raw_recvmsg/raw_sendmsg (ghost stream socket), libc::close + OwnedFd::drop (ghost descriptor table), handle_alloc_error (assume false)"
+// @harness props=C01,C02,C04,C05,C07 tier=thorough reach=off timeout=400 bound="request 18 (SET_VRING_ENABLE), header flags 0x1 (version 1), declared size = body size; body bytes, 0..=2 attached descriptors, three 64-bit negotiation words and handler outcome symbolic; one request" stubs="vmm-sys-util raw_recvmsg/raw_sendmsg (ghost stream socket), libc::close + OwnedFd::drop (ghost descriptor table), handle_alloc_error (assume false)"
 e_be!(e_be_set_vring_enable_plain, 18, 0x1, 0, 0);
-// @harness props=C02,C04,C05,C07,C09 tier=quick thorough_for=C04 reach=off timeout=400 bound="request 21 (SET_BACKEND_REQ_FD), header flags 0x9 (version 1, NEED_REPLY), declared size = body size; body bytes, 0..=2 attached descriptors, three 64-bit negotiation words and handler outcome symbolic; one request" stubs="vmm-sys-util raw_recvmsg/raw_sendmsg (ghost stream socket), libc::close + OwnedFd::drop (ghost descriptor table), handle_alloc_error (assume false)"
+// @harness props=C01,C02,C04,C05,C07,C09 tier=quick thorough_for=C04,C01 reach=off timeout=400 bound="request 21 (SET_BACKEND_REQ_FD), header flags 0x9 (version 1, NEED_REPLY), declared size = body size; body bytes, 0..=2 attached descriptors, three 64-bit negotiation words and handler outcome symbolic; one request" stubs="vmm-sys-util raw_recvmsg/raw_sendmsg (ghost stream socket), libc::close + OwnedFd::drop (ghost descriptor table), handle_alloc_error (assume false)"
 e_be!(e_be_set_backend_req_fd_nr, 21, 0x9, 0, 0);
-// @harness props=C02,C04,C05,C07,C09 tier=thorough reach=off timeout=400 bound="request 21 (SET_BACKEND_REQ_FD), header flags 0x1 (version 1), declared size = body size; body bytes, 0..=2 attached descriptors, three 64-bit negotiation words and handler outcome symbolic; one request" stubs="vmm-sys-util raw_recvmsg/raw_sendmsg (ghost stream socket), libc::close + OwnedFd::drop (ghost descriptor table), handle_alloc_error (assume false)"
+// @harness props=C01,C02,C04,C05,C07,C09 tier=thorough reach=off timeout=400 bound="request 21 (SET_BACKEND_REQ_FD), header flags 0x1 (version 1), declared size = body size; body bytes, 0..=2 attached descriptors, three 64-bit negotiation words and handler outcome symbolic; one request" stubs="vmm-sys-util raw_recvmsg/raw_sendmsg (ghost stream socket), libc::close + OwnedFd::drop (ghost descriptor table), handle_alloc_error (assume false)"
 e_be!(e_be_set_backend_req_fd_plain, 21, 0x1, 0, 0);
-// @harness props=C02,C03,C04,C05,C07 tier=quick reach=off timeout=400 bound="request 24 (GET_CONFIG), header flags 0x9 (version 1, NEED_REPLY), declared size = body size; body bytes, 0..=2 attached descriptors, three 64-bit negotiation words and handler outcome symbolic; one request" stubs="vmm-sys-util raw_recvmsg/raw_sendmsg (ghost stream socket), libc::close + OwnedFd::drop (ghost descriptor table), handle_alloc_error (assume false)"
+// @harness props=C01,C02,C03,C04,C05,C07 tier=quick reach=off timeout=400 bound="request 24 (GET_CONFIG), header flags 0x9 (version 1, NEED_REPLY), declared size = body size; body bytes, 0..=2 attached descriptors, three 64-bit negotiation words and handler outcome symbolic; one request" stubs="vmm-sys-util raw_recvmsg/raw_sendmsg (ghost stream socket), libc::close + OwnedFd::drop (ghost descriptor table), handle_alloc_error (assume false)"
 e_be!(e_be_get_config_ret4_nr, 24, 0x9, 0, 68);
-// @harness props=C02,C03,C04,C05,C07 tier=thorough reach=off timeout=400 bound="request 24 (GET_CONFIG), header flags 0x1 (version 1), declared size = body size; body bytes, 0..=2 attached descriptors, three 64-bit negotiation words and handler outcome symbolic; one request" stubs="vmm-sys-util raw_recvmsg/raw_sendmsg (ghost stream socket), libc::close + OwnedFd::drop (ghost descriptor table), handle_alloc_error (assume false)"
+// @harness props=C01,C02,C03,C04,C05,C07 tier=thorough reach=off timeout=400 bound="request 24 (GET_CONFIG), header flags 0x1 (version 1), declared size = body size; body bytes, 0..=2 attached descriptors, three 64-bit negotiation words and handler outcome symbolic; one request" stubs="vmm-sys-util raw_recvmsg/raw_sendmsg (ghost stream socket), libc::close + OwnedFd::drop (ghost descriptor table), handle_alloc_error (assume false)"
 e_be!(e_be_get_config_ret4_plain, 24, 0x1, 0, 68);
-// @harness props=C02,C03,C04,C05,C07 tier=thorough reach=off timeout=400 bound="request 24 (GET_CONFIG), header flags 0x9 (version 1, NEED_REPLY), declared size = body size; body bytes, 0..=2 attached descriptors, three 64-bit negotiation words and handler outcome symbolic; one request" stubs="vmm-sys-util raw_recvmsg/raw_sendmsg (ghost stream socket), libc::close + OwnedFd::drop (ghost descriptor table), handle_alloc_error (assume false)"
+// @harness props=C01,C02,C03,C04,C05,C07 tier=thorough reach=off timeout=400 bound="request 24 (GET_CONFIG), header flags 0x9 (version 1, NEED_REPLY), declared size = body size; body bytes, 0..=2 attached descriptors, three 64-bit negotiation words and handler outcome symbolic; one request" stubs="vmm-sys-util raw_recvmsg/raw_sendmsg (ghost stream socket), libc::close + OwnedFd::drop (ghost descriptor table), handle_alloc_error (assume false)"
 e_be!(e_be_get_config_ret3_nr, 24, 0x9, 0, 52);
-// @harness props=C02,C03,C04,C05,C07 tier=thorough reach=off timeout=400 bound="request 24 (GET_CONFIG), header flags 0x1 (version 1), declared size = body size; body bytes, 0..=2 attached descriptors, three 64-bit negotiation words and handler outcome symbolic; one request" stubs="vmm-sys-util raw_recvmsg/raw_sendmsg (ghost stream socket), libc::close + OwnedFd::drop (ghost descriptor table), handle_alloc_error (assume false)"
+// @harness props=C01,C02,C03,C04,C05,C07 tier=thorough reach=off timeout=400 bound="request 24 (GET_CONFIG), header flags 0x1 (version 1), declared size = body size; body bytes, 0..=2 attached descriptors, three 64-bit negotiation words and handler outcome symbolic; one request" stubs="vmm-sys-util raw_recvmsg/raw_sendmsg (ghost stream socket), libc::close + OwnedFd::drop (ghost descriptor table), handle_alloc_error (assume false)"
 e_be!(e_be_get_config_ret3_plain, 24, 0x1, 0, 52);
-// @harness props=C02,C03,C04,C05,C07 tier=quick reach=off timeout=400 bound="request 24 (GET_CONFIG), header flags 0x9 (version 1, NEED_REPLY), declared size = body size; body bytes, 0..=2 attached descriptors, three 64-bit negotiation words and handler outcome symbolic; one request" stubs="vmm-sys-util raw_recvmsg/raw_sendmsg (ghost stream socket), libc::close + OwnedFd::drop (ghost descriptor table), handle_alloc_error (assume false)"
+// @harness props=C01,C02,C03,C04,C05,C07 tier=quick reach=off timeout=400 bound="request 24 (GET_CONFIG), header flags 0x9 (version 1, NEED_REPLY), declared size = body size; body bytes, 0..=2 attached descriptors, three 64-bit negotiation words and handler outcome symbolic; one request" stubs="vmm-sys-util raw_recvmsg/raw_sendmsg (ghost stream socket), libc::close + OwnedFd::drop (ghost descriptor table), handle_alloc_error (assume false)"
+e_be!(e_be_get_config_ret5_nr, 24, 0x9, 0, 84);
+// @harness props=C01,C02,C03,C04,C05,C07 tier=thorough reach=off timeout=400 bound="request 24 (GET_CONFIG), header flags 0x1 (version 1), declared size = body size; body bytes, 0..=2 attached descriptors, three 64-bit negotiation words and handler outcome symbolic; one request" stubs="vmm-sys-util raw_recvmsg/raw_sendmsg (ghost stream socket), libc::close + OwnedFd::drop (ghost descriptor table), handle_alloc_error (assume false)"
+e_be!(e_be_get_config_ret5_plain, 24, 0x1, 0, 84);
+// @harness props=C01,C02,C03,C04,C05,C07 tier=quick reach=off timeout=400 bound="request 24 (GET_CONFIG), header flags 0x9 (version 1, NEED_REPLY), declared size = body size; body bytes, 0..=2 attached descriptors, three 64-bit negotiation words and handler outcome symbolic; one request" stubs="vmm-sys-util raw_recvmsg/raw_sendmsg (ghost stream socket), libc::close + OwnedFd::drop (ghost descriptor table), handle_alloc_error (assume false)"
 e_be!(e_be_get_config_fail_nr, 24, 0x9, 0, 324);
-// @harness props=C02,C03,C04,C05,C07 tier=thorough reach=off timeout=400 bound="request 24 (GET_CONFIG), header flags 0x1 (version 1), declared size = body size; body bytes, 0..=2 attached descriptors, three 64-bit negotiation words and handler outcome symbolic; one request" stubs="vmm-sys-util raw_recvmsg/raw_sendmsg (ghost stream socket), libc::close + OwnedFd::drop (ghost descriptor table), handle_alloc_error (assume false)"
+// @harness props=C01,C02,C03,C04,C05,C07 tier=thorough reach=off timeout=400 bound="request 24 (GET_CONFIG), header flags 0x1 (version 1), declared size = body size; body bytes, 0..=2 attached descriptors, three 64-bit negotiation words and handler outcome symbolic; one request" stubs="vmm-sys-util raw_recvmsg/raw_sendmsg (ghost stream socket), libc::close + OwnedFd::drop (ghost descriptor table), handle_alloc_error (assume false)"
 e_be!(e_be_get_config_fail_plain, 24, 0x1, 0, 324);
-// @harness props=C02,C04,C05,C07 tier=quick reach=off timeout=400 bound="request 25 (SET_CONFIG), header flags 0x9 (version 1, NEED_REPLY), declared size = body size; body bytes, 0..=2 attached descriptors, three 64-bit negotiation words and handler outcome symbolic; one request" stubs="vmm-sys-util raw_recvmsg/raw_sendmsg (ghost stream socket), libc::close + OwnedFd::drop (ghost descriptor table), handle_alloc_error (assume false)"
+// @harness props=C01,C02,C04,C05,C07 tier=quick thorough_for=C01 reach=off timeout=400 bound="request 25 (SET_CONFIG), header flags 0x9 (version 1, NEED_REPLY), declared size = body size; body bytes, 0..=2 attached descriptors, three 64-bit negotiation words and handler outcome symbolic; one request" stubs="vmm-sys-util raw_recvmsg/raw_sendmsg (ghost stream socket), libc::close + OwnedFd::drop (ghost descriptor table), handle_alloc_error (assume false)"
 e_be!(e_be_set_config_nr, 25, 0x9, 0, 4);
-// @harness props=C02,C04,C05,C07 tier=thorough reach=off timeout=400 bound="request 25 (SET_CONFIG), header flags 0x1 (version 1), declared size = body size; body bytes, 0..=2 attached descriptors, three 64-bit negotiation words and handler outcome symbolic; one request" stubs="vmm-sys-util raw_recvmsg/raw_sendmsg (ghost stream socket), libc::close + OwnedFd::drop (ghost descriptor table), handle_alloc_error (assume false)"
+// @harness props=C01,C02,C04,C05,C07 tier=thorough reach=off timeout=400 bound="request 25 (SET_CONFIG), header flags 0x1 (version 1), declared size = body size; body bytes, 0..=2 attached descriptors, three 64-bit negotiation words and handler outcome symbolic; one request" stubs="vmm-sys-util raw_recvmsg/raw_sendmsg (ghost stream socket), libc::close + OwnedFd::drop (ghost descriptor table), handle_alloc_error (assume false)"
 e_be!(e_be_set_config_plain, 25, 0x1, 0, 4);
-// @harness props=C02,C03,C04,C05,C07 tier=quick thorough_for=C04 reach=off timeout=400 bound="request 31 (GET_INFLIGHT_FD), header flags 0x9 (version 1, NEED_REPLY), declared size = body size; body bytes, 0..=2 attached descriptors, three 64-bit negotiation words and handler outcome symbolic; one request" stubs="vmm-sys-util raw_recvmsg/raw_sendmsg (ghost stream socket), libc::close + OwnedFd::drop (ghost descriptor table), handle_alloc_error (assume false)"
+// @harness props=C01,C02,C03,C04,C05,C07 tier=quick thorough_for=C04 reach=off timeout=400 bound="request 31 (GET_INFLIGHT_FD), header flags 0x9 (version 1, NEED_REPLY), declared size = body size; body bytes, 0..=2 attached descriptors, three 64-bit negotiation words and handler outcome symbolic; one request" stubs="vmm-sys-util raw_recvmsg/raw_sendmsg (ghost stream socket), libc::close + OwnedFd::drop (ghost descriptor table), handle_alloc_error (assume false)"
 e_be!(e_be_get_inflight_fd_nr, 31, 0x9, 0, 0);
-// @harness props=C02,C03,C04,C05,C07 tier=thorough reach=off timeout=400 bound="request 31 (GET_INFLIGHT_FD), header flags 0x1 (version 1), declared size = body size; body bytes, 0..=2 attached descriptors, three 64-bit negotiation words and handler outcome symbolic; one request" stubs="vmm-sys-util raw_recvmsg/raw_sendmsg (ghost stream socket), libc::close + OwnedFd::drop (ghost descriptor table), handle_alloc_error (assume false)"
+// @harness props=C01,C02,C03,C04,C05,C07 tier=thorough reach=off timeout=400 bound="request 31 (GET_INFLIGHT_FD), header flags 0x1 (version 1), declared size = body size; body bytes, 0..=2 attached descriptors, three 64-bit negotiation words and handler outcome symbolic; one request" stubs="vmm-sys-util raw_recvmsg/raw_sendmsg (ghost stream socket), libc::close + OwnedFd::drop (ghost descriptor table), handle_alloc_error (assume false)"
 e_be!(e_be_get_inflight_fd_plain, 31, 0x1, 0, 0);
-// @harness props=C02,C04,C05,C07,C09 tier=quick thorough_for=C04 reach=off timeout=400 bound="request 32 (SET_INFLIGHT_FD), header flags 0x9 (version 1, NEED_REPLY), declared size = body size; body bytes, 0..=2 attached descriptors, three 64-bit negotiation words and handler outcome symbolic; one request" stubs="vmm-sys-util raw_recvmsg/raw_sendmsg (ghost stream socket), libc::close + OwnedFd::drop (ghost descriptor table), handle_alloc_error (assume false)"
+// @harness props=C01,C02,C04,C05,C07,C09 tier=quick thorough_for=C04,C01 reach=off timeout=400 bound="request 32 (SET_INFLIGHT_FD), header flags 0x9 (version 1, NEED_REPLY), declared size = body size; body bytes, 0..=2 attached descriptors, three 64-bit negotiation words and handler outcome symbolic; one request" stubs="vmm-sys-util raw_recvmsg/raw_sendmsg (ghost stream socket), libc::close + OwnedFd::drop (ghost descriptor table), handle_alloc_error (assume false)"
 e_be!(e_be_set_inflight_fd_nr, 32, 0x9, 0, 0);
-// @harness props=C02,C04,C05,C07,C09 tier=thorough reach=off timeout=400 bound="request 32 (SET_INFLIGHT_FD), header flags 0x1 (version 1), declared size = body size; body bytes, 0..=2 attached descriptors, three 64-bit negotiation words and handler outcome symbolic; one request" stubs="vmm-sys-util raw_recvmsg/raw_sendmsg (ghost stream socket), libc::close + OwnedFd::drop (ghost descriptor table), handle_alloc_error (assume false)"
+// @harness props=C01,C02,C04,C05,C07,C09 tier=thorough reach=off timeout=400 bound="request 32 (SET_INFLIGHT_FD), header flags 0x1 (version 1), declared size = body size; body bytes, 0..=2 attached descriptors, three 64-bit negotiation words and handler outcome symbolic; one request" stubs="vmm-sys-util raw_recvmsg/raw_sendmsg (ghost stream socket), libc::close + OwnedFd::drop (ghost descriptor table), handle_alloc_error (assume false)"
 e_be!(e_be_set_inflight_fd_plain, 32, 0x1, 0, 0);
-// @harness props=C02,C04,C05,C09 tier=quick thorough_for=C04 reach=off timeout=400 bound="request 33 (GPU_SET_SOCKET), header flags 0x9 (version 1, NEED_REPLY), declared size = body size; body bytes, 0..=2 attached descriptors, three 64-bit negotiation words and handler outcome symbolic; one request" stubs="vmm-sys-util raw_recvmsg/raw_sendmsg (ghost stream socket), libc::close + OwnedFd::drop (ghost descriptor table), handle_alloc_error (assume false)"
+// @harness props=C01,C02,C04,C05,C09 tier=quick thorough_for=C04,C01 reach=off timeout=400 bound="request 33 (GPU_SET_SOCKET), header flags 0x9 (version 1, NEED_REPLY), declared size = body size; body bytes, 0..=2 attached descriptors, three 64-bit negotiation words and handler outcome symbolic; one request" stubs="vmm-sys-util raw_recvmsg/raw_sendmsg (ghost stream socket), libc::close + OwnedFd::drop (ghost descriptor table), handle_alloc_error (assume false)"
 e_be!(e_be_gpu_set_socket_nr, 33, 0x9, 0, 0);
-// @harness props=C02,C04,C05,C09 tier=thorough reach=off timeout=400 bound="request 33 (GPU_SET_SOCKET), header flags 0x1 (version 1), declared size = body size; body bytes, 0..=2 attached descriptors, three 64-bit negotiation words and handler outcome symbolic; one request" stubs="vmm-sys-util raw_recvmsg/raw_sendmsg (ghost stream socket), libc::close + OwnedFd::drop (ghost descriptor table), handle_alloc_error (assume false)"
+// @harness props=C01,C02,C04,C05,C09 tier=thorough reach=off timeout=400 bound="request 33 (GPU_SET_SOCKET), header flags 0x1 (version 1), declared size = body size; body bytes, 0..=2 attached descriptors, three 64-bit negotiation words and handler outcome symbolic; one request" stubs="vmm-sys-util raw_recvmsg/raw_sendmsg (ghost stream socket), libc::close + OwnedFd::drop (ghost descriptor table), handle_alloc_error (assume false)"
 e_be!(e_be_gpu_set_socket_plain, 33, 0x1, 0, 0);
-// @harness props=C03,C04,C07 tier=quick reach=off timeout=400 bound="request 34 (RESET_DEVICE), header flags 0x9 (version 1, NEED_REPLY), declared size = body size; body bytes, 0..=2 attached descriptors, three 64-bit negotiation words and handler outcome symbolic; one request" stubs="vmm-sys-util raw_recvmsg/raw_sendmsg (ghost stream socket), libc::close + OwnedFd::drop (ghost descriptor table), handle_alloc_error (assume false)"
+// @harness props=C01,C03,C04,C07 tier=quick thorough_for=C01 reach=off timeout=400 bound="request 34 (RESET_DEVICE), header flags 0x9 (version 1, NEED_REPLY), declared size = body size; body bytes, 0..=2 attached descriptors, three 64-bit negotiation words and handler outcome symbolic; one request" stubs="vmm-sys-util raw_recvmsg/raw_sendmsg (ghost stream socket), libc::close + OwnedFd::drop (ghost descriptor table), handle_alloc_error (assume false)"
 e_be!(e_be_reset_device_nr, 34, 0x9, 0, 0);
-// @harness props=C03,C04,C07 tier=thorough reach=off timeout=400 bound="request 34 (RESET_DEVICE), header flags 0x1 (version 1), declared size = body size; body bytes, 0..=2 attached descriptors, three 64-bit negotiation words and handler outcome symbolic; one request" stubs="vmm-sys-util raw_recvmsg/raw_sendmsg (ghost stream socket), libc::close + OwnedFd::drop (ghost descriptor table), handle_alloc_error (assume false)"
+// @harness props=C01,C03,C04,C07 tier=thorough reach=off timeout=400 bound="request 34 (RESET_DEVICE), header flags 0x1 (version 1), declared size = body size; body bytes, 0..=2 attached descriptors, three 64-bit negotiation words and handler outcome symbolic; one request" stubs="vmm-sys-util raw_recvmsg/raw_sendmsg (ghost stream socket), libc::close + OwnedFd::drop (ghost descriptor table), handle_alloc_error (assume false)"
 e_be!(e_be_reset_device_plain, 34, 0x1, 0, 0);
-// @harness props=C03,C04,C07 tier=quick thorough_for=C04 reach=off timeout=400 bound="request 36 (GET_MAX_MEM_SLOTS), header flags 0x9 (version 1, NEED_REPLY), declared size = body size; body bytes, 0..=2 attached descriptors, three 64-bit negotiation words and handler outcome symbolic; one request" stubs="vmm-sys-util raw_recvmsg/raw_sendmsg (ghost stream socket), libc::close + OwnedFd::drop (ghost descriptor table), handle_alloc_error (assume false)"
+// @harness props=C01,C03,C04,C07 tier=quick thorough_for=C04 reach=off timeout=400 bound="request 36 (GET_MAX_MEM_SLOTS), header flags 0x9 (version 1, NEED_REPLY), declared size = body size; body bytes, 0..=2 attached descriptors, three 64-bit negotiation words and handler outcome symbolic; one request" stubs="vmm-sys-util raw_recvmsg/raw_sendmsg (ghost stream socket), libc::close + OwnedFd::drop (ghost descriptor table), handle_alloc_error (assume false)"
 e_be!(e_be_get_max_mem_slots_nr, 36, 0x9, 0, 0);
-// @harness props=C03,C04,C07 tier=thorough reach=off timeout=400 bound="request 36 (GET_MAX_MEM_SLOTS), header flags 0x1 (version 1), declared size = body size; body bytes, 0..=2 attached descriptors, three 64-bit negotiation words and handler outcome symbolic; one request" stubs="vmm-sys-util raw_recvmsg/raw_sendmsg (ghost stream socket), libc::close + OwnedFd::drop (ghost descriptor table), handle_alloc_error (assume false)"
+// @harness props=C01,C03,C04,C07 tier=thorough reach=off timeout=400 bound="request 36 (GET_MAX_MEM_SLOTS), header flags 0x1 (version 1), declared size = body size; body bytes, 0..=2 attached descriptors, three 64-bit negotiation words and handler outcome symbolic; one request" stubs="vmm-sys-util raw_recvmsg/raw_sendmsg (ghost stream socket), libc::close + OwnedFd::drop (ghost descriptor table), handle_alloc_error (assume false)"
 e_be!(e_be_get_max_mem_slots_plain, 36, 0x1, 0, 0);
-// @harness props=C02,C04,C05,C07,C09 tier=quick reach=off timeout=400 bound="request 37 (ADD_MEM_REG), header flags 0x9 (version 1, NEED_REPLY), declared size = body size; body bytes, 0..=2 attached descriptors, three 64-bit negotiation words and handler outcome symbolic; one request" stubs="vmm-sys-util raw_recvmsg/raw_sendmsg (ghost stream socket), libc::close + OwnedFd::drop (ghost descriptor table), handle_alloc_error (assume false)"
+// @harness props=C01,C02,C04,C05,C07,C09 tier=quick thorough_for=C01 reach=off timeout=400 bound="request 37 (ADD_MEM_REG), header flags 0x9 (version 1, NEED_REPLY), declared size = body size; body bytes, 0..=2 attached descriptors, three 64-bit negotiation words and handler outcome symbolic; one request" stubs="vmm-sys-util raw_recvmsg/raw_sendmsg (ghost stream socket), libc::close + OwnedFd::drop (ghost descriptor table), handle_alloc_error (assume false)"
 e_be!(e_be_add_mem_reg_nr, 37, 0x9, 0, 0);
-// @harness props=C02,C04,C05,C07,C09 tier=thorough reach=off timeout=400 bound="request 37 (ADD_MEM_REG), header flags 0x1 (version 1), declared size = body size; body bytes, 0..=2 attached descriptors, three 64-bit negotiation words and handler outcome symbolic; one request" stubs="vmm-sys-util raw_recvmsg/raw_sendmsg (ghost stream socket), libc::close + OwnedFd::drop (ghost descriptor table), handle_alloc_error (assume false)"
+// @harness props=C01,C02,C04,C05,C07,C09 tier=thorough reach=off timeout=400 bound="request 37 (ADD_MEM_REG), header flags 0x1 (version 1), declared size = body size; body bytes, 0..=2 attached descriptors, three 64-bit negotiation words and handler outcome symbolic; one request" stubs="vmm-sys-util raw_recvmsg/raw_sendmsg (ghost stream socket), libc::close + OwnedFd::drop (ghost descriptor table), handle_alloc_error (assume false)"
 e_be!(e_be_add_mem_reg_plain, 37, 0x1, 0, 0);
-// @harness props=C02,C04,C05,C07 tier=quick thorough_for=C04 reach=off timeout=400 bound="request 38 (REM_MEM_REG), header flags 0x9 (version 1, NEED_REPLY), declared size = body size; body bytes, 0..=2 attached descriptors, three 64-bit negotiation words and handler outcome symbolic; one request" stubs="vmm-sys-util raw_recvmsg/raw_sendmsg (ghost stream socket), libc::close + OwnedFd::drop (ghost descriptor table), handle_alloc_error (assume false)"
+// @harness props=C01,C02,C04,C05,C07 tier=quick thorough_for=C04,C01 reach=off timeout=400 bound="request 38 (REM_MEM_REG), header flags 0x9 (version 1, NEED_REPLY), declared size = body size; body bytes, 0..=2 attached descriptors, three 64-bit negotiation words and handler outcome symbolic; one request" stubs="vmm-sys-util raw_recvmsg/raw_sendmsg (ghost stream socket), libc::close + OwnedFd::drop (ghost descriptor table), handle_alloc_error (assume false)"
 e_be!(e_be_rem_mem_reg_nr, 38, 0x9, 0, 0);
-// @harness props=C02,C04,C05,C07 tier=thorough reach=off timeout=400 bound="request 38 (REM_MEM_REG), header flags 0x1 (version 1), declared size = body size; body bytes, 0..=2 attached descriptors, three 64-bit negotiation words and handler outcome symbolic; one request" stubs="vmm-sys-util raw_recvmsg/raw_sendmsg (ghost stream socket), libc::close + OwnedFd::drop (ghost descriptor table), handle_alloc_error (assume false)"
+// @harness props=C01,C02,C04,C05,C07 tier=thorough reach=off timeout=400 bound="request 38 (REM_MEM_REG), header flags 0x1 (version 1), declared size = body size; body bytes, 0..=2 attached descriptors, three 64-bit negotiation words and handler outcome symbolic; one request" stubs="vmm-sys-util raw_recvmsg/raw_sendmsg (ghost stream socket), libc::close + OwnedFd::drop (ghost descriptor table), handle_alloc_error (assume false)"
 e_be!(e_be_rem_mem_reg_plain, 38, 0x1, 0, 0);
-// @harness props=C02,C03,C04,C05,C07 tier=quick reach=off timeout=400 bound="request 41 (GET_SHARED_OBJECT), header flags 0x9 (version 1, NEED_REPLY), declared size = body size; body bytes, 0..=2 attached descriptors, three 64-bit negotiation words and handler outcome symbolic; one request" stubs="vmm-sys-util raw_recvmsg/raw_sendmsg (ghost stream socket), libc::close + OwnedFd::drop (ghost descriptor table), handle_alloc_error (assume false)"
+// @harness props=C01,C02,C03,C04,C05,C07 tier=quick reach=off timeout=400 bound="request 41 (GET_SHARED_OBJECT), header flags 0x9 (version 1, NEED_REPLY), declared size = body size; body bytes, 0..=2 attached descriptors, three 64-bit negotiation words and handler outcome symbolic; one request" stubs="vmm-sys-util raw_recvmsg/raw_sendmsg (ghost stream socket), libc::close + OwnedFd::drop (ghost descriptor table), handle_alloc_error (assume false)"
 e_be!(e_be_get_shared_object_nr, 41, 0x9, 0, 0);
-// @harness props=C02,C03,C04,C05,C07 tier=thorough reach=off timeout=400 bound="request 41 (GET_SHARED_OBJECT), header flags 0x1 (version 1), declared size = body size; body bytes, 0..=2 attached descriptors, three 64-bit negotiation words and handler outcome symbolic; one request" stubs="vmm-sys-util raw_recvmsg/raw_sendmsg (ghost stream socket), libc::close + OwnedFd::drop (ghost descriptor table), handle_alloc_error (assume false)"
+// @harness props=C01,C02,C03,C04,C05,C07 tier=thorough reach=off timeout=400 bound="request 41 (GET_SHARED_OBJECT), header flags 0x1 (version 1), declared size = body size; body bytes, 0..=2 attached descriptors, three 64-bit negotiation words and handler outcome symbolic; one request" stubs="vmm-sys-util raw_recvmsg/raw_sendmsg (ghost stream socket), libc::close + OwnedFd::drop (ghost descriptor table), handle_alloc_error (assume false)"
 e_be!(e_be_get_shared_object_plain, 41, 0x1, 0, 0);
-// @harness props=C02,C03,C04,C05,C09 tier=quick reach=off timeout=400 bound="request 42 (SET_DEVICE_STATE_FD), header flags 0x9 (version 1, NEED_REPLY), declared size = body size; body bytes, 0..=2 attached descriptors, three 64-bit negotiation words and handler outcome symbolic; one request" stubs="vmm-sys-util raw_recvmsg/raw_sendmsg (ghost stream socket), libc::close + OwnedFd::drop (ghost descriptor table), handle_alloc_error (assume false)"
+// @harness props=C01,C02,C03,C04,C05,C09 tier=quick reach=off timeout=400 bound="request 42 (SET_DEVICE_STATE_FD), header flags 0x9 (version 1, NEED_REPLY), declared size = body size; body bytes, 0..=2 attached descriptors, three 64-bit negotiation words and handler outcome symbolic; one request" stubs="vmm-sys-util raw_recvmsg/raw_sendmsg (ghost stream socket), libc::close + OwnedFd::drop (ghost descriptor table), handle_alloc_error (assume false)"
 e_be!(e_be_set_device_state_fd_nr, 42, 0x9, 0, 0);
-// @harness props=C02,C03,C04,C05,C09 tier=thorough reach=off timeout=400 bound="request 42 (SET_DEVICE_STATE_FD), header flags 0x1 (version 1), declared size = body size; body bytes, 0..=2 attached descriptors, three 64-bit negotiation words and handler outcome symbolic; one request" stubs="vmm-sys-util raw_recvmsg/raw_sendmsg (ghost stream socket), libc::close + OwnedFd::drop (ghost descriptor table), handle_alloc_error (assume false)"
+// @harness props=C01,C02,C03,C04,C05,C09 tier=thorough reach=off timeout=400 bound="request 42 (SET_DEVICE_STATE_FD), header flags 0x1 (version 1), declared size = body size; body bytes, 0..=2 attached descriptors, three 64-bit negotiation words and handler outcome symbolic; one request" stubs="vmm-sys-util raw_recvmsg/raw_sendmsg (ghost stream socket), libc::close + OwnedFd::drop (ghost descriptor table), handle_alloc_error (assume false)"
 e_be!(e_be_set_device_state_fd_plain, 42, 0x1, 0, 0);
-// @harness props=C03,C04 tier=quick reach=off timeout=400 bound="request 43 (CHECK_DEVICE_STATE), header flags 0x9 (version 1, NEED_REPLY), declared size = body size; body bytes, 0..=2 attached descriptors, three 64-bit negotiation words and handler outcome symbolic; one request" stubs="vmm-sys-util raw_recvmsg/raw_sendmsg (ghost stream socket), libc::close + OwnedFd::drop (ghost descriptor table), handle_alloc_error (assume false)"
+// @harness props=C01,C03,C04 tier=quick reach=off timeout=400 bound="request 43 (CHECK_DEVICE_STATE), header flags 0x9 (version 1, NEED_REPLY), declared size = body size; body bytes, 0..=2 attached descriptors, three 64-bit negotiation words and handler outcome symbolic; one request" stubs="vmm-sys-util raw_recvmsg/raw_sendmsg (ghost stream socket), libc::close + OwnedFd::drop (ghost descriptor table), handle_alloc_error (assume false)"
 e_be!(e_be_check_device_state_nr, 43, 0x9, 0, 0);
-// @harness props=C03,C04 tier=thorough reach=off timeout=400 bound="request 43 (CHECK_DEVICE_STATE), header flags 0x1 (version 1), declared size = body size; body bytes, 0..=2 attached descriptors, three 64-bit negotiation words and handler outcome symbolic; one request" stubs="vmm-sys-util raw_recvmsg/raw_sendmsg (ghost stream socket), libc::close + OwnedFd::drop (ghost descriptor table), handle_alloc_error (assume false)"
+// @harness props=C01,C03,C04 tier=thorough reach=off timeout=400 bound="request 43 (CHECK_DEVICE_STATE), header flags 0x1 (version 1), declared size = body size; body bytes, 0..=2 attached descriptors, three 64-bit negotiation words and handler outcome symbolic; one request" stubs="vmm-sys-util raw_recvmsg/raw_sendmsg (ghost stream socket), libc::close + OwnedFd::drop (ghost descriptor table), handle_alloc_error (assume false)"
 e_be!(e_be_check_device_state_plain, 43, 0x1, 0, 0);
-// @harness props=C03,C04,C07 tier=quick thorough_for=C04 reach=off timeout=400 bound="request 44 (GET_SHMEM_CONFIG), header flags 0x9 (version 1, NEED_REPLY), declared size = body size; body bytes, 0..=2 attached descriptors, three 64-bit negotiation words and handler outcome symbolic; one request" stubs="vmm-sys-util raw_recvmsg/raw_sendmsg (ghost stream socket), libc::close + OwnedFd::drop (ghost descriptor table), handle_alloc_error (assume false)"
+// @harness props=C01,C03,C04,C07 tier=quick thorough_for=C04 reach=off timeout=400 bound="request 44 (GET_SHMEM_CONFIG), header flags 0x9 (version 1, NEED_REPLY), declared size = body size; body bytes, 0..=2 attached descriptors, three 64-bit negotiation words and handler outcome symbolic; one request" stubs="vmm-sys-util raw_recvmsg/raw_sendmsg (ghost stream socket), libc::close + OwnedFd::drop (ghost descriptor table), handle_alloc_error (assume false)"
 e_be!(e_be_get_shmem_config_nr, 44, 0x9, 0, 0);
-// @harness props=C03,C04,C07 tier=thorough reach=off timeout=400 bound="request 44 (GET_SHMEM_CONFIG), header flags 0x1 (version 1), declared size = body size; body bytes, 0..=2 attached descriptors, three 64-bit negotiation words and handler outcome symbolic; one request" stubs="vmm-sys-util raw_recvmsg/raw_sendmsg (ghost stream socket), libc::close + OwnedFd::drop (ghost descriptor table), handle_alloc_error (assume false)"
+// @harness props=C01,C03,C04,C07 tier=thorough reach=off timeout=400 bound="request 44 (GET_SHMEM_CONFIG), header flags 0x1 (version 1), declared size = body size; body bytes, 0..=2 attached descriptors, three 64-bit negotiation words and handler outcome symbolic; one request" stubs="vmm-sys-util raw_recvmsg/raw_sendmsg (ghost stream socket), libc::close + OwnedFd::drop (ghost descriptor table), handle_alloc_error (assume false)"
 e_be!(e_be_get_shmem_config_plain, 44, 0x1, 0, 0);
 // @harness props=C04,C05,C09 tier=thorough reach=off timeout=400 bound="request 2 with the REPLY bit set (flags 0xd): must be rejected; body bytes, 0..=2 attached descriptors, three 64-bit negotiation words and handler outcome symbolic; one request" stubs="vmm-sys-util raw_recvmsg/raw_sendmsg (ghost stream socket), libc::close + OwnedFd::drop (ghost descriptor table), handle_alloc_error (assume false)"
 e_be!(e_be_set_features_replybit, 2, 0xd, 0, 0);
